@@ -43,6 +43,7 @@ type FnCtx struct {
 	lastCall   string
 	letVals    map[string]Val
 	paramVars  map[string]Val
+	readFails  [][2]string // (reader, failure flag) pairs of the reads(...) items of the contract call being applied
 	lastSort   *sortInfo
 	preDeferSite string
 	noClosure  bool
@@ -69,6 +70,7 @@ type loopInfo struct {
 	blocks  map[*ssa.BasicBlock]bool
 	mods    map[string]bool // statically computed set of heap components the body may write
 	modAll  bool
+	modHeap bool // the body may write any heap component except ghost (GH.*) and channel (CN.*, CL.*) state
 	inState *State
 	inAlloc string
 	con     *LoopCon
@@ -93,7 +95,8 @@ func (fc *FnCtx) name(v ssa.Value) string {
 func (fc *FnCtx) noteWrite(comp string) {
 	for c := fc; c != nil; c = c.parent {
 		for _, l := range c.activeLoops {
-			if !l.modAll && !l.mods[comp] && comp != "alloc" {
+			heapAll := (l.modHeap || (l.con != nil && l.con.ModHeap)) && !(strings.HasPrefix(comp, "GH.") || strings.HasPrefix(comp, "CN.") || strings.HasPrefix(comp, "CL."))
+			if !l.modAll && !heapAll && !l.mods[comp] && comp != "alloc" {
 				panic(unsupportedf("internal: component %s written inside loop %d of %s but not in its static modifies set", comp, l.ordinal, c.fn.Name()))
 			}
 		}
